@@ -1,14 +1,16 @@
 (* C07 — versioned reads are stable, duplicate-free and respect deletion.
-   Property theorems only; proofs live in proofs/MvccReadsProofs.v.  The node-chain model
-   (model/MvccReads.v) is of the repaired code; two defects are recorded, not repaired:
-   class [Known_C07] (the history deletes the node whose past is read - needs tombstones)
-   and the relationship log's missing pre-image (C07_refuted_edge, on model/Mvcc.v). *)
+   Property theorems only; proofs live in proofs/MvccReadsProofs.v (node chains with
+   deletion, model/MvccReads.v) and proofs/MvccProofs.v (relationship log, model/Mvcc.v).
+   Both models are of the repaired code; one defect is recorded, not repaired: class
+   [Known_C07] (the history deletes the node whose past is read - needs tombstones).
+   The relationship log's missing pre-image / creation version has been repaired
+   (C07_read_stable_edge; the original behaviour is kept as C07_original_edge_defect). *)
 From Coq Require Import List NArith Bool.
-From Verif Require Import Txn Mvcc MvccReads MvccReadsProofs.
+From Verif Require Import Txn Mvcc MvccProofs MvccReads MvccReadsProofs.
 Import ListNotations.
 Open Scope N_scope.
 
-(* the full statement (not provable on the current code: see C07_refuted / C07_refuted_edge) *)
+(* the full statement for nodes (not provable on the current code: see C07_refuted) *)
 Definition C07_full : Prop :=
   forall ops1 ops2 id v, v < ncur (nrun ops1) ->
     read_at (nrun (ops1 ++ ops2)) id v = read_at (nrun ops1) id v.
@@ -25,12 +27,41 @@ Theorem C07_refuted : exists ops1 ops2 id v,
   read_at (nrun (ops1 ++ ops2)) id v <> read_at (nrun ops1) id v.
 Proof. exact read_refuted. Qed.
 
-Theorem C07_refuted_edge :
+(* relationships (and the nodes of model/Mvcc.v): for every history ops1 of create / set /
+   transaction / gc calls and every continuation ops2, a read at a version older than
+   current_version never changes afterwards; a collection in ops2 must be gc_versions(w) with
+   w <= v (reads below a collection's watermark are given up by design, C08) *)
+Theorem C07_read_stable_edge : forall ops1 ops2 v,
+  v < curv (Mvcc.run ops1) -> forallb (gc_ok v) ops2 = true ->
+  (forall e, read_edge (Mvcc.run (ops1 ++ ops2)) e v = read_edge (Mvcc.run ops1) e v) /\
+  (forall n, read_node (Mvcc.run (ops1 ++ ops2)) n v = read_node (Mvcc.run ops1) n v).
+Proof. exact past_reads_stable. Qed.
+
+(* the behaviour before the repair, on the original functions: the read at version 1 of a
+   relationship created at version 1 changed with its first update at version 2; the repaired
+   functions keep it *)
+Example C07_original_edge_defect :
   let ops1 := [Mvcc.CreateNode []; Mvcc.CreateNode []; Mvcc.CreateEdge 1 2; Tx (Begin RC); Tx (Commit 1)] in
-  let ops2 := [SetEdge 1 0 5] in
-  1 < curv (Mvcc.run ops1) /\
-  read_edge (Mvcc.run (ops1 ++ ops2)) 1 1 <> read_edge (Mvcc.run ops1) 1 1.
-Proof. exact edge_read_refuted. Qed.
+  let s1 := Mvcc.run ops1 in
+  1 < curv s1 /\
+  read_edge_orig (set_edge_orig s1 1 0 5) 1 1 <> read_edge_orig s1 1 1 /\
+  read_edge (Mvcc.run (ops1 ++ [SetEdge 1 0 5])) 1 1 = read_edge s1 1 1 /\
+  read_edge s1 1 1 = Some {| v_ver := 1; v_props := [] |}.
+Proof. exact edge_read_original_defect. Qed.
+
+(* non-vacuity for relationships: created at version 2 (None below it), first update at 3,
+   a relationship created at version 1 first updated at 3 (pre-image), a collection at 2 *)
+Example C07_nonvacuous_edge :
+  let ops1 := [Mvcc.CreateNode []; Mvcc.CreateNode []; Mvcc.CreateEdge 1 2; Tx (Begin RC); Tx (Commit 1);
+               Mvcc.CreateEdge 2 1; Tx (Begin RC); Tx (Commit 2)] in
+  let ops2 := [SetEdge 1 0 5; SetEdge 2 1 6; Tx (Gc 2); Tx (Begin RC); Tx (Commit 3); SetEdge 2 1 7] in
+  curv (Mvcc.run ops1) = 3 /\ forallb (gc_ok 2) ops2 = true /\
+  read_edge (Mvcc.run (ops1 ++ ops2)) 1 2 = Some {| v_ver := 1; v_props := [] |} /\
+  read_edge (Mvcc.run (ops1 ++ ops2)) 2 2 = Some {| v_ver := 2; v_props := [] |} /\
+  read_edge (Mvcc.run ops1) 2 1 = None /\
+  read_edge (Mvcc.run (ops1 ++ ops2)) 2 3 = Some {| v_ver := 3; v_props := [(1, 6)] |} /\
+  read_edge (Mvcc.run (ops1 ++ ops2)) 2 4 = Some {| v_ver := 4; v_props := [(1, 7)] |}.
+Proof. vm_compute. repeat split; reflexivity. Qed.
 
 (* scans and counts: each id once, count = number of scanned ids = entities readable now *)
 Theorem C07_scan_unique : forall ops,
@@ -57,6 +88,6 @@ Proof. vm_compute. repeat split; reflexivity. Qed.
 
 Print Assumptions C07_read_stable_partial.
 Print Assumptions C07_refuted.
-Print Assumptions C07_refuted_edge.
+Print Assumptions C07_read_stable_edge.
 Print Assumptions C07_scan_unique.
 Print Assumptions C07_deleted_unreadable.
